@@ -36,7 +36,7 @@ class C14(BaseCheck):
                       'text:nonascii', 'text:empty')
   ASSUMPTIONS = ('interfaces: the repository\'s hello.Hello plus a hand-written module in the shape the '
                  'Thrift compiler emits (py:dynamic); no Thrift compiler is available offline',)
-  QUICK_CASES = 160
+  QUICK_CASES = 480
   THOROUGH_CASES = 4000
   QUICK_WALL = 45
   THOROUGH_WALL = 420
